@@ -20,6 +20,7 @@ CFG = {
     "tie": {"trie.insert/delete/tryGet (TryUpdate/TryDelete/TryGet)": "corr (Go vs Model.Trie insert/delete/get)",
             "hasher.hash/hashChildren/store (Hash, Commit)": "corr (root recomputed by Model.Trie.hashRoot with the Lean Keccak)",
             "Commit/reopen/SetCacheLimit/Database.Commit, resolveHash/resolve": "corr (driver replays them in the partial-load model Model.TrieLoad: node database + partially loaded root, commit = commitDb + unloading, reopen = bare root hash node, on-demand resolution in xget/xinsert/xdelete)",
+            "trie.Database insert/reference/dereference (Reference/Dereference pins)": "corr (G cases: set of cached nodes vs Model.TrieGc) + direct judgement (every root with an outstanding pin reopens, also after Database.Commit through a fresh Database)",
             "MissingNodeError": "direct judgement (one node blob deleted from the disk db: error or exact behaviour, never a wrong value)",
             "keybytesToHex/hexToCompact/compactToHex/hexToKeybytes": "corr via overlay accessors",
             "nodeIterator/Iterator": "corr (Go vs Model.Trie.toList)", "Prove/VerifyProof/decodeNode": "corr (Go vs Model.TrieProof) + direct judgement of altered proofs",
@@ -36,7 +37,7 @@ CFG = {
 META = {
     "technique": "Lean 4 proof (map refinement, canonical-shape invariant, uniqueness of the canonical trie => root depends on content only, for any hash function) tied to trie/ by differential correspondence with an independent root",
     "text": "Theorems get_insert, get_delete, wf_insert, wf_delete, wf_unique, run_refines, root_content_only, root_eq_spec, root_binding, iter_is_content, "
-            "compact_hex_roundtrip, keybytes_hex_roundtrip, decode_encode_node, prove_verify, verify_sound (explicit collision-freedom), commit_reopen, reopen_get, unload_get/insert/delete/hashRoot, unload_denotation, commit_reopen_partial, missing_node_is_reported, partial_history_refines, root_content_only_partial hold for all tries/keys/histories in the Lean model of trie.go/encoding.go/hasher.go/node.go/proof.go; "
+            "compact_hex_roundtrip, keybytes_hex_roundtrip, decode_encode_node, prove_verify, verify_sound (explicit collision-freedom), commit_reopen, reopen_get, unload_get/insert/delete/hashRoot, unload_denotation, commit_reopen_partial, missing_node_is_reported, partial_history_refines, root_content_only_partial, gc_parents_count, gc_keeps_referenced hold for all tries/keys/histories in the Lean model of trie.go/encoding.go/hasher.go/node.go/proof.go; "
             "every run re-checks them and replays >1500 random histories on the real Trie/SecureTrie against the compiled model requiring identical "
             "gets, iteration, proofs and root hashes (the root recomputed by Lean's own Keccak), plus direct judgement that no single-byte "
             "alteration of a Merkle proof verifies to a different value.",
